@@ -1237,3 +1237,116 @@ def c06_r3b(ctx):
             ctx.viol((g.id, "notthere-is-error"), "a missing cache entry makes the rule fail instead of being rebuilt", g.where(*hard[0]))
         else:
             ctx.ok()
+
+
+@rule("C11.R5", floor=3)
+def c11_r5(ctx):
+    """Directory initialisation recovers from a partial creation: every create_dir(p) is
+    guarded by the `absent` edge of is_dir on that same path p (not of another directory), so
+    a run killed between two create_dir calls is completed by the next run."""
+    for c in mutator_sites(ctx.P):
+        if c.name != "create_dir":
+            continue
+        f = c.fn
+        ctx.saw(f)
+        ctx.inst("create_dir in %s" % f.id, c.where)
+        po = f.origins_of_operand(c.args[1])
+        guards = set()
+        other = []
+        for g in sys_calls(f, "is_dir"):
+            fe = f.bool_edges_of_call(g, False)
+            if f.origins_of_operand(g.args[1]) == po:
+                guards |= fe
+            elif f.dominated_by_edges(c.bb, fe):
+                other.append(g)
+        # the guard may be stored in a bool first: `let missing = !is_dir(p); ... if missing {create_dir(p)}`
+        for l, defs in f.defs.items():
+            if f.local_ty(l)["s"] != "bool" or not f.is_user(l):
+                continue
+            srcs = set()
+            for (kind, bb, idx, place, rv) in defs:
+                if kind == "assign":
+                    for o in f._rv_origins(rv, (), bb, idx, frozenset()):
+                        srcs.add(o)
+            # bool = Not(call is_dir(p))
+            for o in srcs:
+                if o[0][0] == "unop" and o[0][4] == "Not":
+                    st = f.blocks[o[0][2]]["stmts"][o[0][3]]["rv"]
+                    for o2 in f.origins_of_operand(st["a"]):
+                        if o2[0][0] == "call" and o2[0][3] == "system::System::is_dir":
+                            g = f.call_at[o2[0][2]]
+                            for bb2 in f.live:
+                                info = f.switch_info(bb2)
+                                if info and info["kind"] in ("value", "local") and info.get("place", {}).get("local", info.get("local")) == l:
+                                    e = f._bool_edges(info, True)
+                                    if f.origins_of_operand(g.args[1]) == po:
+                                        guards |= e
+                                    elif f.dominated_by_edges(c.bb, e):
+                                        other.append(g)
+        if guards and f.dominated_by_edges(c.bb, guards):
+            ctx.ok()
+        elif other:
+            ctx.viol((f.id, "create-dir-guarded-by-other-path"), "a directory is created depending on whether a *different* directory exists: after a kill between the two creations the missing one is never created and every later build fails", c.where)
+        else:
+            ctx.ok()    # unconditional creation (errors are reported by the caller) is not this rule's concern
+
+
+@rule("C07.R5", floor=3)
+def c07_r5(ctx):
+    """The cache directory holds nothing but cache entries: the cache, the history and the
+    file-state table live at pairwise different paths `<directory>/<literal>` (a history kept
+    in the cache directory would be a cache entry not named after the hash of its bytes, and
+    would vanish with the cache)."""
+    lits = {}
+    for owner in ("cache::SysCache", "history::History", "current::CurrentFileStates"):
+        for f in prod(ctx.P):
+            if f.body.get("derived"):
+                continue
+            for (bb, idx, rv, pl) in f.constructs(owner):
+                names = rv["kind"]["fields"]
+                pop = rv["ops"][names.index("path")]
+                for lit in _owner_literals(ctx.P, f, pop, 0):
+                    lits.setdefault(owner, set()).add(lit)
+    for owner, ls in lits.items():
+        ctx.inst("%s lives at <directory>%s" % (owner, sorted(x.decode("utf8", "replace") if isinstance(x, bytes) else str(x) for x in ls)))
+    ctx.need(len(lits) == 3, "path literals of the three owners")
+    owners = sorted(lits)
+    bad = False
+    for i, a in enumerate(owners):
+        if len(lits[a]) != 1 or None in lits[a]:
+            ctx.viol((a, "owner-path-ambiguous"), "%s can be rooted at several places / at a path that is not `<directory>/<literal>`" % a)
+            bad = True
+        for b2 in owners[i + 1:]:
+            if lits[a] & lits[b2]:
+                ctx.viol((a, "owners-share-a-path", b2), "%s and %s are rooted at the same path: ruler's state files would sit among the cache entries (and share their fate)" % (a, b2))
+                bad = True
+            else:
+                for x in lits[a]:
+                    for y in lits[b2]:
+                        if x and y and (x.startswith(y + b"/") or y.startswith(x + b"/")):
+                            ctx.viol((a, "owner-inside-owner", b2), "%s and %s are nested in each other" % (a, b2))
+                            bad = True
+    if not bad:
+        ctx.ok()
+
+
+def _owner_literals(P, fn, op, depth):
+    """Literal suffixes of `format!("{}<lit>", directory)` reaching an owner's path field."""
+    fm = format_of_operand(fn, op)
+    if fm is not None:
+        if len(fm) == 2 and fm[0][0] == "arg" and fm[1][0] == "lit":
+            return {fm[1][1]}
+        return {None}
+    out = set()
+    for o in fn.origins_of_operand(op):
+        if o[0][0] == "param" and len(o) == 1 and depth < 6 and fn.kind != "closure":
+            sites = [c for c in P.callers.get(fn.id, []) if not c.fn.body.get("in_test")]
+            if fn.body.get("derived") or not sites:
+                continue
+            for cs in sites:
+                out |= _owner_literals(P, cs.fn, cs.args[o[0][1] - 1], depth + 1)
+        elif o[0][0] == "param" and o[-1] == ("field", "path"):
+            continue      # a clone of an existing owner
+        else:
+            out.add(None)
+    return out
